@@ -11,6 +11,7 @@ TRANSLATORS = [
     "translate_units",    # C08: gen/UnitTables.v, gen/PrefixTable.v
     "translate_profile",  # C03/C17: gen/AstTypes.v, gen/ProfileStrings.v
     "translate_iface",    # C19: gen/IfaceTable.v (interfaceTypeToString, InterfaceType, permitsInterfaceType literals)
+    "translate_global",   # C12: gen/GlobalSites.v (writers of process-global state, issue-list resets of the entry points)
 ]
 
 
